@@ -775,10 +775,18 @@ class Interp:
         self.counters = {"flush_checks": 0, "tx_checks": 0, "ops": 0, "skipped": 0}
         self.warnings = []
         self.trace = []
+        self.scope_modified = []  # per open savepoint: objects whose attributes the program changed inside it
         self.scope_loaded = []  # per open savepoint: {idx: attribute keys loaded when it began}
         self.scope_children = []  # per open savepoint: children whose collection membership changed (one-directional o2m)
         self.scope_kinds = []  # per open savepoint: generic kinds of operations done inside it
         self.rich_rollback = False  # a savepoint at depth>=2 holding add+delete+modify was rolled back
+        self.integrity_is_violation = False  # C31: an IntegrityError from a flush is the violation itself
+        self.on_flush = None  # callback(kinds, mappers) at every flush (C31 statistics)
+        self.op_no = 0
+        self.boundary_at = 0  # index of the first op of the open transaction (C32 re-runs from here)
+        self.nobjs_at_boundary = 0
+        self.name_ctr_at_boundary = 0
+        self.reuse_slots = None  # C32 re-run: slots of objects discarded by the rollback, re-created in order
         self.triggers = []  # known-finding triggers deliberately executed (pinned replays only)
         self.orphan_of = {}  # idx of an orphan-deleted object -> former parent
         event.listen(self.session, "after_flush_postexec", self._on_flush)
@@ -826,6 +834,11 @@ class Interp:
         except Violation:
             raise
         except Exception as e:
+            from sqlalchemy.exc import IntegrityError
+
+            if isinstance(e, IntegrityError) and self.integrity_is_violation and not self.triggers:
+                self.viol("order/integrity-error-on-constraint-valid-final-state",
+                          f"flush raised IntegrityError although the pending state is constraint-valid: {str(e)[:300]}")
             if self.triggers and not isinstance(e, (HarnessError, CircularDependencyError)):
                 self.viol(self.triggers[0], f"{type(e).__name__}: {str(e)[:300]}")
             if not isinstance(e, CircularDependencyError):
@@ -837,6 +850,8 @@ class Interp:
             raise
 
     def _note_flush(self):
+        if self.on_flush is not None:
+            self.on_flush(set(self.flush_kinds), set(self.flush_mappers))
         self.orphan_of = {}
         mix = len(self.flush_kinds)
         if mix >= 2 and len(self.flush_mappers) >= 2:
@@ -854,6 +869,9 @@ class Interp:
         gen = "add" if kind == "add" else "delete" if kind == "delete" else "modify"
         for sc in self.scope_kinds:
             sc.add(gen)
+        if gen == "modify":
+            for sc in self.scope_modified:
+                sc.update(o.idx for o in objs if o is not None)
         if kind in ("append", "reparent", "remove", "clear", "replace", "clearparent") and self.U.has_o2m and not self.U.is_bidir:
             for sc in self.scope_children:
                 sc.update(o.idx for o in objs if o is not None and self.U.childish(o.kind))
@@ -882,6 +900,7 @@ class Interp:
                 for n, op in enumerate(ops):
                     if until is not None and n >= until:
                         break
+                    self.op_no = n
                     self.step(op)
             finally:
                 self.warnings.extend(str(x.message)[:60] for x in w)
@@ -898,12 +917,18 @@ class Interp:
             self.check_flush_point("autoflush")
 
     # ---- object creation / session membership
+    def mark_boundary(self):
+        self.boundary_at = self.op_no + 1
+        self.nobjs_at_boundary = len(self.model.objs)
+        self.name_ctr_at_boundary = self.model.name_ctr
+
     def op_new(self, a, b, c):
         m = self.model
-        if len(m.objs) >= self.MAX_OBJS:
+        if len(m.objs) - len(self.reuse_slots or ()) >= self.MAX_OBJS:
             return False
         kind = self.U.kinds[a % len(self.U.kinds)]
-        o = MObj(len(m.objs), kind, 100 + len(m.objs))
+        idx = self.reuse_slots.pop(0) if self.reuse_slots else len(m.objs)
+        o = MObj(idx, kind, 100 + idx)
         o.vals["val"] = VALS[b % len(VALS)]
         kw = {"uid": o.uid, "val": o.vals["val"]}
         if kind == "SubChild":
@@ -914,7 +939,10 @@ class Interp:
             o.vals["name"] = f"k{m.name_ctr}"
             kw["name"] = o.vals["name"]
         o.real = self.U.classes[kind](**kw)
-        m.objs.append(o)
+        if idx < len(m.objs):
+            m.objs[idx] = o
+        else:
+            m.objs.append(o)
         if c % 2 == 0:
             self._add(o)
         return True
@@ -1264,6 +1292,8 @@ class Interp:
         if p is None:
             return False
         ch = None if c % 4 == 0 else self.pick(self.pool(lambda o: self.U.childish(o.kind) and self.linkable(o)), b)
+        if c % 4 in (1, 2) and self.model.children_of(p):
+            ch = self.pick([k for k in self.model.children_of(p) if self.linkable(k)], b) or ch  # the usual shape: favourite among one's own children
         if ch is p.fav:
             return False
         if ch is not None:
@@ -1336,11 +1366,13 @@ class Interp:
                     if (o.uid, t.uid) not in m.pairs or t.state != "S":
                         return False
             for q in m.objs:
-                if q.fav is o and q.state != "G" and not q.dead:
-                    return False  # a favourite must be cleared by the application first
+                if q.fav is o and q.state != "G" and not q.dead and q.idx not in seen:
+                    return False  # a favourite must be cleared by the application first (unless its holder goes too)
             for key, row in m.rows.items():
                 if key[0] == "Parent" and row.get("fav") == o.uid:
-                    return False
+                    holder = m.by_uid("Parent", key[1])
+                    if holder is None or holder.idx not in seen:
+                        return False
         if o.kind == "Tag":
             refs = [ch for ch in m.objs if o in ch.tags and not ch.dead]
             if not U.has_items and (refs or any(p[1] == o.uid for p in m.pairs)):
@@ -1376,6 +1408,8 @@ class Interp:
                 self.triggers.append("state/deleted-before-savepoint-revived-by-savepoint-rollback")
         self.do(lambda: self.session.delete(o.real))
         mappers = [o] + (self.model.descendants(o) if self.U.casc_delete else [])
+        if any(q.fav is not None and q.fav in mappers for q in mappers):
+            self.classes.add("delete-favourite-with-its-holder")
         self.model.m_delete(o)
         self.touch("delete", *mappers)
 
@@ -1565,6 +1599,7 @@ class Interp:
             elif o.state == "P" and self._isolated(o):
                 self.do(lambda: self.session.expunge(o.real))
                 o.state = "T"
+                o.dead = True  # discarded
                 self.classes.add("repair-expunge")
             elif o.state == "P":
                 # still linked to tags: unlink then expunge
@@ -1592,6 +1627,7 @@ class Interp:
         del self.nested[:]
         del self.scope_kinds[:]
         del self.scope_children[:]
+        del self.scope_modified[:]
         del self.scope_loaded[:]
         if self.rich_rollback:
             self.classes.add("commit-after-rich-rollback")
@@ -1599,6 +1635,7 @@ class Interp:
         self._note_flush()
         self.pending_check = False
         self.classes.add("commit" if not depth else "commit-through-savepoints")
+        self.mark_boundary()
         self.check_commit_point()
 
     def op_rollback(self, a, b, c):
@@ -1606,11 +1643,13 @@ class Interp:
         if not self.session.in_transaction():
             self.session.rollback()  # nothing to roll back, nothing expires
             self.classes.add("rollback-without-transaction")
+            self.mark_boundary()
             return True
         self.session.rollback()
         del self.nested[:]
         del self.scope_kinds[:]
         del self.scope_children[:]
+        del self.scope_modified[:]
         del self.scope_loaded[:]
         self.rich_rollback = False
         self.model.m_rollback_to(0)
@@ -1619,6 +1658,7 @@ class Interp:
         self.orphan_of = {}
         self.pending_check = False
         self.classes.add("rollback" if not depth else "rollback-through-savepoints")
+        self.mark_boundary()
         self.check_tx_point("rollback", outer=True)
 
     def op_nested(self, a, b, c):
@@ -1632,6 +1672,7 @@ class Interp:
         self.model.push()
         self.scope_kinds.append(set())
         self.scope_children.append(set())
+        self.scope_modified.append(set())
         self.scope_loaded.append({o.idx: dict(o.real.__dict__) for o in self.model.objs if o.state == "S" and not o.dead})
         self.pending_check = False
         self.check_flush_point("begin_nested")
@@ -1644,6 +1685,7 @@ class Interp:
         self.guard(self.nested.pop().commit)
         self.scope_kinds.pop()
         self.scope_children.pop()
+        self.scope_modified.pop()
         self.scope_loaded.pop()
         self.model.m_release()
         self._note_flush()
@@ -1674,6 +1716,8 @@ class Interp:
         del self.scope_children[k:]
         loaded_at_start = self.scope_loaded[k]
         del self.scope_loaded[k:]
+        modified_in_scope = set().union(*self.scope_modified[k:])
+        del self.scope_modified[k:]
         if depth_before >= 2 and {"add", "delete", "modify"} <= rolled:
             self.rich_rollback = True
             self.classes.add("rich-savepoint-rollback")
@@ -1682,7 +1726,7 @@ class Interp:
         # that were merely loaded inside it (possibly showing rows flushed inside it) are expired by the program
         for idx, keys in sorted(loaded_at_start.items()):
             o = self.model.objs[idx]
-            if o.state == "S" and not o.dead:
+            if o.state == "S" and not o.dead and idx not in modified_in_scope:  # (modified objects must be expired by the rollback itself)
                 fresh = sorted(k for k, v in o.real.__dict__.items() if k != "_sa_instance_state" and (k not in keys or keys[k] is not v))
                 if fresh:
                     self.session.expire(o.real, fresh)
@@ -1717,6 +1761,7 @@ class Interp:
         del self.nested[:]
         del self.scope_kinds[:]
         del self.scope_children[:]
+        del self.scope_modified[:]
         del self.scope_loaded[:]
         self.rich_rollback = False
         m.m_rollback_to(0)
